@@ -1,11 +1,13 @@
 """C11 — Comment parsing never aborts, and its diagnostics point at the source.
 
-Proof: lean/GIVerif/Props/C11.lean over lean/GIVerif/Model/AnnParse*.lean: totality of the
-tokenizer for every string (partial Python operations are explicit Except steps), atomicity
-of a failing annotation field, caret positions inside the field, and the message log
-(every log call counted, warnings-as-errors fails iff count > 0).
-Tie: translators + correspondence of tokenizer, matchers and message log with the real code.
-The block level is VALIDATED by oracles written from the statement and run on the real
+Proof: lean/GIVerif/Props/C11.lean over lean/GIVerif/Model/AnnParse/*.lean: totality of the
+tokenizer AND of the block state machine for every string (partial Python operations are explicit
+Except steps), atomicity of a failing annotation field, caret positions inside the field, line
+numbers of everything the state machine logs, and the message log (every log call counted,
+warnings-as-errors fails iff count > 0).
+Tie: translators + correspondence of tokenizer, matchers, message log and of the whole block
+parser (block tree and every diagnostic with line, caret and quoted line) with the real code.
+Independently of the model the statement is judged by oracles run on the real
 GtkDocCommentBlockParser for arbitrary strings: never raises, other blocks survive, every
 diagnostic names the file and the line of the offending text, a quoted line is that source
 line and the caret lies within it, counting is independent of display.
@@ -492,12 +494,16 @@ def run(ctx):
         'layers': {'1 tokenizer': 'modelled, proved (C11_ann_total, C11_atomic_annotations, C11_caret, ...), corresponded',
                    '2 line matchers': 'modelled, corresponded',
                    'message log': 'modelled, proved (C11_count, C11_warn_fatal), corresponded',
-                   '3 block state machine, validate()': 'validated on the real code by statement oracles'},
+                   '3 block state machine': 'modelled (parseBlock), proved total (C11_block_total) with line numbers '
+                   '(C11_line_step, C11_line_partial), corresponded (block tree + every diagnostic) on every text',
+                   'validate()': 'len(options) modelled (C11_validate_len_*); its diagnostics are validated on the real code '
+                   'by the statement oracles'},
         'exhaustive': False,
     })
     ctx.assumptions.extend([
-        'block-level clauses (never raises for whole blocks, line numbers, quoted line, survival of other blocks) are '
-        'validated on the real parser for generated strings, not proved',
+        'block level: never-raises and line numbers are proved for the model of the state machine (without validate()) '
+        'and the model is compared with the real parser on every text; quoted line / caret at block level, validate() '
+        'diagnostics and survival of other blocks are validated on the real parser for generated strings, not proved',
         'a "line" is what the parser itself separates: \\r\\n, \\r or \\n; the line clause is judged only when the '
         'opening token stands alone on its line, the caret clause only outside deprecated tag-style annotation lines '
         '(for those: the quoted text must come from that line)',
